@@ -110,4 +110,28 @@ def Server.delete (s : Server) (del : Uri) (rndOf : Nat → Nat) : Server × Boo
 def Server.stats (s : Server) : List (Handle × Nat × Nat) :=
   s.rrdp.publishers.map (fun h => let o := s.rrdp.objectsFor h; (h, o.length, o.size))
 
+/-! ### the manager as a state machine (state part of every request) -/
+
+inductive Op where
+  | addpub (h : Handle)
+  | rmpub (h : Handle)
+  | publish (h : Handle) (d : Delta)
+  | update (rnd : Nat)
+  | reset (session rnd : Nat)
+  | delete (del : Uri) (rndOf : Nat → Nat)
+
+def Server.step (s : Server) : Op → Server
+  | .addpub h => (s.addPublisher h).1
+  | .rmpub h => (s.removePublisher h).1
+  | .publish h d => (s.publish h d).1
+  | .update rnd => (s.update rnd).1
+  | .reset session rnd => s.reset session rnd
+  | .delete del rndOf => (s.delete del rndOf).1
+
+def Server.run (s : Server) (ops : List Op) : Server := ops.foldl Server.step s
+
+/-- `RepositoryManager::init`. -/
+def Server.init (base : Uri) (cfg : Cfg) (session rnd : Nat) : Server :=
+  { base, cfg, access := [], rrdp := Rrdp.create session rnd }
+
 end KM.Pubd
